@@ -2,7 +2,9 @@
 // sorted multisets (duplicates and omissions both visible).
 // case:   c12 <n> { A s p k c.. | T s p k c.. | F q | G n q.. | E | C | R nd d.. np {s p k c..} }
 //         A = AddTransition(children,symbol,parent), T = AddTransition(Transition), F = SetStateFinal,
-//         G = SetStatesFinal, E = EraseFinalStates, C = Clear, R = read all views
+//         G = SetStatesFinal, E = EraseFinalStates, C = Clear, R = read all views;
+//         bystander: Y = (re)make a copy of the automaton, Z s p k c.. = AddTransition on the copy, H q = SetStateFinal on the copy,
+//         W = AreTransitionsEmpty on both (nothing done to the copy may show in the views of the automaton)
 // output: per R:  R I <n> {s p k c..} F <n> q.. A <n> {rules} U <n> q.. E <0|1> D <nd> { q <empty> <n> {rules} }
 //                 S <nd> bits  K <np> bits  V <np> bits
 #include "common.hh"
@@ -26,6 +28,7 @@ int main() {
 			Watchdog wd;
 			Toks t(line); t.expect("c12"); U n = t.num();
 			Aut aut;
+			std::unique_ptr<Aut> by;     // a bystander: a copy of the automaton that is modified on its own; nothing done to it may show in aut's views
 			std::ostringstream os;
 			bool first = true;
 			for (U i = 0; i < n; ++i) {
@@ -34,6 +37,10 @@ int main() {
 				else if (w == "T") { Rule r = readRule(t); Aut::StateTuple tup(r.ch.begin(), r.ch.end()); aut.AddTransition(Aut::Transition(r.par, r.sym, tup)); }
 				else if (w == "F") { aut.SetStateFinal(t.num()); }
 				else if (w == "G") { U k = t.num(); std::set<Aut::StateType> s; for (U j = 0; j < k; ++j) s.insert(t.num()); aut.SetStatesFinal(s); }
+				else if (w == "Y") { by.reset(new Aut(aut)); }
+				else if (w == "Z") { Rule r = readRule(t); Aut::StateTuple tup(r.ch.begin(), r.ch.end()); if (by) by->AddTransition(tup, r.sym, r.par); }
+				else if (w == "H") { U q = t.num(); if (by) by->SetStateFinal(q); }
+				else if (w == "W") { (void) aut.AreTransitionsEmpty(); if (by) (void) by->AreTransitionsEmpty(); }
 				else if (w == "E") { aut.EraseFinalStates(); }
 				else if (w == "C") { aut.Clear(); }
 				else if (w == "R") {
